@@ -44,7 +44,7 @@ func checkC07(c *Ctx) {
 	pool := c.Pool()
 	maxNodes, fiv, fuel := 4, "few", 2
 	if c.Thorough() {
-		maxNodes, fiv, fuel = 5, "few", 3
+		maxNodes, fiv, fuel = 5, "lean", 3
 	}
 	rng := rand.New(rand.NewSource(c.Seed))
 	_ = rng
@@ -105,24 +105,28 @@ func checkC07(c *Ctx) {
 			c.Sample(map[string]any{"program": string(j.Hist[0].Prog), "conds": v.Conds, "expected_stdout_lines": len(exp), "outcome": v.Outcome})
 		}
 	})
-	res := c.TLC(TLCOpt{Module: "MC_EvalCtl", Cfg: evalCfg(maxNodes, fiv, fuel), Heap: "12g",
-		OnVec: func(raw []byte) {
-			var v evalVec
-			VecDecode(raw, &v)
-			prog := Node{"fns": []any{}, "n": float64(v.N), "rules": []any{
-				map[string]any{"kind": "P", "body": map[string]any(v.Tree)},
-				map[string]any{"kind": "P", "body": map[string]any{"k": "print"}},
-				map[string]any{"kind": "E", "body": map[string]any{"k": "print"}}}}
-			r1 := newEvalRenderer()
-			p1 := r1.renderEvalProgram(prog, v.Conds)
-			r2 := newEvalRenderer()
-			r2.braceMin = true
-			p2 := r2.renderEvalProgram(prog, v.Conds)
-			mk := func(p evalProgram) Job {
-				return Job{Kind: "run", Prog: []byte(p.Text), Files: []FileIn{{Name: "in.json", Data: []byte(p.Input)}}, Budget: 200000}
-			}
-			st.Submit(Job{Kind: "history", Hist: []Job{mk(p1), mk(p2), mk(p1)}, Tag: string(raw)})
-		}})
+	onVec := func(raw []byte) {
+		var v evalVec
+		VecDecode(raw, &v)
+		prog := Node{"fns": []any{}, "n": float64(v.N), "rules": []any{
+			map[string]any{"kind": "P", "body": map[string]any(v.Tree)},
+			map[string]any{"kind": "P", "body": map[string]any{"k": "print"}},
+			map[string]any{"kind": "E", "body": map[string]any{"k": "print"}}}}
+		r1 := newEvalRenderer()
+		p1 := r1.renderEvalProgram(prog, v.Conds)
+		r2 := newEvalRenderer()
+		r2.braceMin = true
+		p2 := r2.renderEvalProgram(prog, v.Conds)
+		mk := func(p evalProgram) Job {
+			return Job{Kind: "run", Prog: []byte(p.Text), Files: []FileIn{{Name: "in.json", Data: []byte(p.Input)}}, Budget: 200000}
+		}
+		st.Submit(Job{Kind: "history", Hist: []Job{mk(p1), mk(p2), mk(p1)}, Tag: string(raw)})
+	}
+	res := c.TLC(TLCOpt{Module: "MC_EvalCtl", Cfg: evalCfg(maxNodes, fiv, fuel), Heap: "12g", OnVec: onVec})
+	if c.Thorough() {
+		// the deeper trees run with the lean set of for-in variants; every variant runs with the quick bounds
+		c.TLC(TLCOpt{Module: "MC_EvalCtl", Cfg: evalCfg(4, "few", 2), Heap: "12g", OnVec: onVec})
+	}
 	st.Wait()
 	checkC07Traces(c)
 	checkC07LongLoops(c)
